@@ -9,12 +9,16 @@
    template error (expr: "unknown name").
 
    The loader is parametrised by three switches [flags] that select, at exactly three places, between
-   what the code does and what the property text asks for:
-     fl_mask    : an evaluation error of `enabled` is reported as "role disabled" (roleutils.go)
+   what the code did before three repairs and what it does now (= what the property text asks for):
+     fl_mask    : an evaluation error of `enabled` is reported as "role disabled" (roleutils.go;
+                  repaired, C15-a: the stage error wins)
      fl_iterraw : an iterator container is kept or dropped by its template's unprocessed `enabled`
+                  (iteratorrole.go IsEnabled; repaired, C15-b: the container is always kept)
      fl_count   : an aggregator is "empty" when its Roles slice is empty, iterator containers counted
-   [coded] (all three on) is the model of the code; [ideal] (all off) is the reading of the property
-   statement that the monitor uses as its yardstick. *)
+                  (aggregatorrole.go; repaired, C15-d: emptiness is decided on GetRoles())
+   [coded] (all three off) is the model of the code and the yardstick of the monitor; [legacy] (all
+   three on) is the code before the repairs; the monitor classifies a deviation by the switches
+   that reproduce it, which is how a regression of a repair is recognised. *)
 From Verif Require Export Common.
 Open Scope N_scope.
 
@@ -227,8 +231,9 @@ Record ctx := mkCtx { cD : env; cV : env; cU : env }.
 Definition stack (loc : env) (c : ctx) : env := loc ++ cU c ++ cV c ++ cD c.
 
 Record flags := mkFlags { fl_mask : bool; fl_iterraw : bool; fl_count : bool }.
-Definition coded : flags := mkFlags true true true.
-Definition ideal : flags := mkFlags false false false.
+Definition coded : flags := mkFlags false false false.
+Definition legacy : flags := mkFlags true true true.
+Definition ideal : flags := coded.
 
 (* what one role holds after its own template sequence *)
 Record info := mkInfo {
@@ -312,12 +317,12 @@ Fixpoint all_ok (l : list res) : option (list onode) :=
   end.
 
 (* tail of aggregatorRole.ProcessTemplates: errors accumulated, disabled children filtered,
-   self-disable when empty *)
+   self-disable when empty (the Roles slice keeps the iterator containers that generated nothing) *)
 Definition join_agg (f : flags) (i : info) (crit : bool) (rs : list res) : res :=
   match all_ok rs with
   | None => Err
   | Some ns => let ks := filter (node_enabled f) ns in
-               if agg_empty f ks then Ok (ONode KAgg (set_enabled i s_false) crit [])
+               if agg_empty f ks then Ok (ONode KAgg (set_enabled i s_false) crit ks)
                else Ok (ONode KAgg i crit ks)
   end.
 (* tail of iteratorRole.ProcessTemplates *)
@@ -637,9 +642,12 @@ Definition corr15 (k : c15_case) : bool :=
 (* ---------- monitor: the property evaluated on what the implementation returned ----------
    0 holds
    1 the outcome depends on the setting of the concurrency switches
-   2 the load succeeded and differs from the reference only by masking `enabled` errors   (C15-a)
-   3 ... only by dropping iterators whose template carries a non-literal `enabled`        (C15-b)
-   4 ... only by keeping aggregators whose children are all empty iterator containers      (C15-d)
+   2 the load succeeded and differs from the reference only by masking `enabled` errors
+     (the behaviour before the repair of C15-a)
+   3 ... only by dropping iterators whose template carries a non-literal `enabled`
+     (before the repair of C15-b)
+   4 ... only by keeping aggregators whose children are all empty iterator containers
+     (before the repair of C15-d)
    5 an aggregator with no child roles at all is present below the root
    6 the load succeeded although a template error is live that is not an `enabled` error
    7 a role that is not enabled is present below the root
@@ -660,7 +668,7 @@ Definition ref_vis (f : flags) (c : ctx) (r : role) : voutcome :=
 
 (* the iterator containers of the loaded tree hold as many copies as those of a reference *)
 Definition all_flags : list flags :=
-  [ideal; coded; mkFlags true false false; mkFlags false true false; mkFlags false false true;
+  [coded; legacy; mkFlags true false false; mkFlags false true false; mkFlags false false true;
    mkFlags true true false; mkFlags true false true; mkFlags false true true].
 Definition prof_is (f : flags) (c : ctx) (r : role) (t : onode) : bool :=
   match proc f r c [] with
@@ -682,7 +690,7 @@ Definition mon_load (c : ctx) (r : role) (o : outcome) : N :=
     else if is (mkFlags true false false) then 2
     else if is (mkFlags false true false) then 3
     else if is (mkFlags false false true) then 4
-    else if is (mkFlags true true false) || is (mkFlags true false true) || is coded then 2
+    else if is (mkFlags true true false) || is (mkFlags true false true) || is legacy then 2
     else if is (mkFlags false true true) then 3
     else match ref_vis ideal c r, v with
          | VErr, VTree _ => 6
@@ -706,7 +714,7 @@ Definition mon15 (k : c15_case) : N :=
 
 (* ---------- branch tag (input distribution) ----------
    bit 0 the model fails; bit 1 the template has an iterator; bit 2 some `enabled` is not the
-   literal true; bit 3 coded and reference loader differ on it; bit 4 something was pruned or
+   literal true; bit 3 the loader before the repairs of C15-a/b/d and the repaired loader differ on it; bit 4 something was pruned or
    expanded (visible roles <> template roles); bit 5 race case; bit 6 an iterator inside the
    template of an iterator has a range that is an expression (not a literal); bit 7 iterators are
    nested three deep or more *)
@@ -751,7 +759,7 @@ Definition tag15 (k : c15_case) : N :=
     (match m with Err => 1 | Ok _ => 0 end)
     + (if has_for r then 2 else 0)
     + (if has_cond r then 4 else 0)
-    + (if voutcome_eqb (ref_vis coded c r) (ref_vis ideal c r) then 0 else 8)
+    + (if voutcome_eqb (ref_vis legacy c r) (ref_vis coded c r) then 0 else 8)
     + (match m with
        | Ok t => if Nat.eqb (vis_count t) (role_count r) then 0 else 16
        | Err => 0
